@@ -179,7 +179,8 @@ def same_instant(what, got, ref, labels, kind="date-differs"):
 # ------------------------------------------------------------------ propagators
 
 PROPS = {"sgp4": ["sgp4"], "sgp4beta": ["sgp4beta"],
-         "propagators": ["kepler", "j2", "keplernum", "none", "sun", "moon", "iter"]}
+         "propagators": ["kepler", "kepler-other-body", "j2", "keplernum", "keplernum-dopri54", "keplernum-rkf54", "none", "sun",
+                         "moon", "iter"]}
 
 
 @st.composite
@@ -196,8 +197,11 @@ def prop_case(draw, shard, tier, family="propagators"):
     us = draw(gd.instants(leaps, lo_mjd=gd.LO_MJD + 10, hi_mjd=gd.HI_MJD - 10))
     X, Y = draw(label_pair())
     kind = draw(st.sampled_from(PROPS[family]))
-    span = {"keplernum": 40 * 60 * US, "iter": 6 * 3600 * US}.get(kind, 3 * US_DAY)
+    span = {"keplernum": 40 * 60 * US, "keplernum-dopri54": 40 * 60 * US, "keplernum-rkf54": 40 * 60 * US,
+            "iter": 6 * 3600 * US}.get(kind, 3 * US_DAY)
     dt = draw(st.sampled_from([0, 1, -1, 60 * US]) | gd.mixed_int(-span, span, 2))
+    if kind.startswith("keplernum-"):
+        dt = abs(dt) + 600 * US
     dt = gd.push_out_of_leap_windows(us + dt, leaps) - us
     arg = draw(st.sampled_from(["date", "date", "timedelta"]))
     # NonePropagator.propagate(timedelta) stores the timedelta as the date (a C08 matter, not a label one)
@@ -206,8 +210,15 @@ def prop_case(draw, shard, tier, family="propagators"):
     case = dict(us=us, dt=dt, X=X, Y=Y, kind=kind, arg=arg)
     if kind in ("sgp4", "sgp4beta"):
         case["tle"] = draw(tle_elements())
+    elif kind == "kepler-other-body":
+        case["body"] = draw(st.sampled_from(["Moon", "Mars", "Sun"]))
+        case["el"] = draw(go.elements(hyperbolic=False, bodies=(case["body"],), emax_ell=0.7, rp_range=(1.05, 6.0)))
     elif kind not in ("sun", "moon"):
         case["el"] = draw(go.elements(hyperbolic=False, emax_ell=0.7, rp_range=(1.05, 6.0)))
+        if kind.startswith("keplernum-"):
+            # eccentric enough for the adaptive methods to really reduce their step near the perigee
+            case["el"] = draw(go.elements(hyperbolic=False, emax_ell=0.75, rp_range=(1.03, 1.3)))
+            pass
     if kind == "iter":
         case["X2"] = draw(gd.scales())
         case["npts"] = draw(st.integers(2, 6))
@@ -272,6 +283,19 @@ def run_prop(case, X, Y, X2=None):
         from beyond.propagators.keplernum import KeplerNum
 
         res = cart_orbit(case["el"], epoch, KeplerNum(timedelta(seconds=60), get_body("Earth"))).propagate(arg)
+    elif kind in ("keplernum-dopri54", "keplernum-rkf54"):
+        from beyond.env.solarsystem import get_body
+        from beyond.propagators.keplernum import KeplerNum
+
+        res = cart_orbit(case["el"], epoch, KeplerNum(timedelta(seconds=120), get_body("Earth"), method=kind.split("-")[1],
+                                                      tol=1e-3)).propagate(arg)
+    elif kind == "kepler-other-body":
+        from beyond.orbits import Orbit
+        from beyond.propagators.kepler import Kepler
+
+        from . import c01
+
+        res = Orbit(go.cart_of(case["el"]), epoch, "cartesian", c01.frame_for(case["body"]), Kepler()).propagate(arg)
     elif kind in ("sun", "moon"):
         from beyond.env.solarsystem import get_body
 
@@ -304,7 +328,7 @@ def check_prop(case):
     X2 = lab(us, case.get("X2", "UTC")) if kind == "iter" else None
     if kind == "iter" and inexact(X):
         X = "TT"  # the grid start + k * step is reading arithmetic: uniform scales only (C03)
-    if kind == "keplernum" and inexact(Y):
+    if kind.startswith("keplernum") and inexact(Y):
         Y = "GPS"  # the integrator steps epoch + k * 60 s in the epoch's own scale: same remark
     if kind in ("sun", "moon"):
         Y = "UTC"
@@ -361,6 +385,16 @@ def check_prop(case):
 FRAMES = ["EME2000", "MOD", "TOD", "TEME", "PEF", "ITRF", "TIRF", "CIRF", "GCRF", "G50"]
 ROTATING = {"PEF", "ITRF", "TIRF"}
 IAU2010 = {"TIRF", "CIRF", "GCRF"}
+STATIONS = [(45.0, 3.0, 100.0), (-33.9, 18.4, 50.0), (78.2, 15.4, 450.0)]
+
+
+def _frame_arg(name):
+    """A frame name, or one of three ground stations (topocentric frames: at most 3 registrations per shard)."""
+    if not name.startswith("station:"):
+        return name
+    from . import c11
+
+    return c11.station(_SHARD[0], *STATIONS[int(name.split(":")[1])])
 
 
 @st.composite
@@ -370,7 +404,14 @@ def frame_case(draw, shard, tier):
     k = draw(st.integers(0, len(FRAMES) ** 2 - 1))
     src, dst = FRAMES[k // len(FRAMES)], FRAMES[k % len(FRAMES)]
     el = draw(go.elements(hyperbolic=False, emax_ell=0.9, rp_range=(1.03, 8.0)))
-    return dict(us=us, X=X, src=src, dst=dst, el=el)
+    form = "cartesian"
+    if src not in ROTATING and draw(st.booleans()):
+        # the input state is HELD in another form when its frame is changed
+        form = draw(st.sampled_from(["keplerian", "keplerian_mean", "keplerian_circular", "equinoctial", "spherical",
+                                      "cylindrical"]))
+    if draw(st.integers(0, 5)) == 0:
+        dst = f"station:{draw(st.integers(0, len(STATIONS) - 1))}"
+    return dict(us=us, X=X, src=src, dst=dst, el=el, form=form)
 
 
 def check_frames(case):
@@ -384,17 +425,26 @@ def check_frames(case):
         _CLONE["how"] = case.get("clone", "none") if L != "UTC" else "none"
         d = date_of(us, L)
         sv = StateVector(cart, d, "cartesian", src)
-        res = sv.copy(frame=dst)
-        if str(res.frame) != dst:
+        if case.get("form", "cartesian") != "cartesian":
+            sv = sv.copy(form=case["form"])
+        target = _frame_arg(dst)
+        res = sv.copy(frame=target)
+        if str(res.frame) != (dst if isinstance(target, str) else target.name):
             raise Violation("frame-name", f"copy(frame={dst}) gives {res.frame}")
-        out[L] = (np.asarray(res.base, float), res.date, d)
+        if res.form.name != case.get("form", "cartesian"):
+            raise Violation("frame-form", f"copy(frame={dst}) of a state held as {case.get('form')} comes back as {res.form.name}")
+        out[L] = (np.asarray(res.copy(form="cartesian").base, float), res.date, d)
     g, gdate, d = out[X]
     r, rdate, _ = out["UTC"]
-    rotating = bool({src, dst} & ROTATING)
+    rotating = bool({src, dst} & ROTATING) or dst.startswith("station:")
     rate = OMEGA_E if rotating else 1e-10
     dts = 2e-6 if inexact(X) else 0.0
     rr = float(np.linalg.norm(r[:3]))
     vv = float(np.linalg.norm(r[3:]))
+    if dst.startswith("station:"):
+        # a topocentric state: the lever arm of the Earth's rotation is the geocentric radius
+        rr = float(np.linalg.norm(np.asarray(cart, float)[:3]))
+        vv = float(np.linalg.norm(np.asarray(cart, float)[3:])) + OMEGA_E * rr
     extra_pos = extra_vel = 0.0
     quantum = False
     if rotating or (src in IAU2010) != (dst in IAU2010):
@@ -418,6 +468,8 @@ def check_frames(case):
         ratio = None
         for k in (1, -1):
             turn = _rot3_state(k * JD_TURN)
+            if dst.startswith("station:"):
+                break  # (the turn about the pole is not a turn about the station's vertical: loose bound below)
             if dst in ROTATING and src not in ROTATING:
                 cand_g, cand_r = turn @ g, r
             elif src in ROTATING and dst not in ROTATING:
@@ -432,7 +484,7 @@ def check_frames(case):
             except Violation:
                 continue
         if ratio is None:
-            if src in ROTATING and dst in ROTATING:
+            if (src in ROTATING and dst in ROTATING) or dst.startswith("station:"):
                 # both ends turn (GMST and ERA from the same Julian date): the quanta cancel to the
                 # difference of the two rates; only the loose bound is available here
                 ratio = compare_states(what, g, r, dts + 1.5 * JD_QUANTUM * 3e-3, rate=rate,
@@ -441,7 +493,7 @@ def check_frames(case):
             else:
                 raise first
     same_instant(f"{src}->{dst}", gdate, rdate, (X,))
-    cls = [f"eop:{t3.cfg()}", f"X:{X}", f"{src}->{dst}"] + clone_classes(case)
+    cls = [f"eop:{t3.cfg()}", f"X:{X}", f"{src}->{dst}", f"held-as:{case.get('form', 'cartesian')}"] + clone_classes(case)
     if straddle(us, (X,)):
         cls.append("labels-straddle-0h")
     if quantum:
@@ -706,19 +758,29 @@ def events_case(draw, shard, tier):
     step = draw(st.sampled_from([60, 180, 300])) * US
     revs = draw(go.uniform(0.6, 1.6))
     return dict(us=us, X=X, Y=Y, X2=X2, el=el, step=step, revs=revs,
-                listeners=draw(st.sampled_from([["node"], ["apside"], ["node", "apside"]])))
+                listeners=draw(st.sampled_from([["node"], ["apside"], ["node", "apside"], ["light"], ["penumbra", "node"],
+                                                ["anomaly"], ["terminator"], ["light", "anomaly", "terminator"]])))
 
 
 def run_events(case, X, Y, X2):
     from beyond.dates import timedelta
     from beyond.propagators.kepler import Kepler
-    from beyond.propagators.listeners import ApsideListener, NodeListener
+    from beyond.propagators.listeners import (AnomalyListener, ApsideListener, LightListener, NodeListener,
+                                              TerminatorListener)
+
+    def make(k):
+        if k == "terminator":
+            if "terminator" not in _STATIONS:  # one per process (its constructor registers a frame)
+                _STATIONS["terminator"] = TerminatorListener()
+            return _STATIONS["terminator"]
+        return {"node": NodeListener, "apside": ApsideListener, "light": lambda: LightListener("umbra"),
+                "penumbra": lambda: LightListener("penumbra"), "anomaly": lambda: AnomalyListener(1.0, "mean")}[k]()
 
     us, step = case["us"], case["step"]
     period = 2 * math.pi * math.sqrt(case["el"]["a"] ** 3 / MU_E)
     n = int(case["revs"] * period * US / step) + 1
     orb = cart_orbit(case["el"], date_of(us, Y), Kepler())
-    listeners = [{"node": NodeListener, "apside": ApsideListener}[k]() for k in case["listeners"]]
+    listeners = [make(k) for k in case["listeners"]]
     start = date_of(us + 60 * US, X)
     stop = date_of(us + 60 * US + n * step + step // 2, X2)
     out = []
@@ -1185,13 +1247,13 @@ FACETS = [
           rule="every case (label is never UTC)", quick=(4, 100), thorough=(16, 800)),
     Facet("station_events", with_clone(station_events_case), check_station_events, setup=setup_station, shrink_quick=False,
           rule="at least one AOS / LOS / MAX event in the all-UTC run", quick=(6, 4), thorough=(16, 25)),
-    Facet("frames", with_clone(frame_case), check_frames, setup=setup,
+    Facet("frames", with_clone(frame_case), check_frames, setup=setup_station,
           rule="source frame differs from target frame", quick=(8, 300), thorough=(32, 1500)),
     Facet("interp", with_clone(interp_case), check_interp, setup=setup,
           rule="some label is not UTC", quick=(8, 150), thorough=(16, 1200)),
     Facet("tle_writer", with_clone(tle_case), check_tle, setup=setup,
           rule="every case (epoch label is never UTC)", quick=(4, 300), thorough=(8, 2000)),
-    Facet("events", with_clone(events_case), check_events, setup=setup,
+    Facet("events", with_clone(events_case), check_events, setup=setup_ccsds,
           rule="every case ((X, Y) != (UTC, UTC) by construction)", quick=(6, 40), thorough=(16, 100), shrink_quick=False),
     Facet("utils", with_clone(utils_case), check_utils, setup=setup,
           rule="every case (label is never UTC)", quick=(4, 250), thorough=(8, 1500)),
